@@ -11,7 +11,7 @@
 From Coq Require Import String.
 From FA Require Import model.Base model.Json model.Parse model.SchemaSpec model.Canon
      model.Inline model.Value model.Schema model.Codec model.Bridge
-     proofs.JsonProofs proofs.ParseProofs proofs.CanonProofs proofs.InlineProofs proofs.CodecProofs proofs.BridgeProofs proofs.BridgeCanonProofs.
+     proofs.JsonProofs proofs.ParseProofs proofs.CanonProofs proofs.InlineProofs proofs.CodecProofs proofs.BridgeProofs proofs.BridgeCanonProofs proofs.FixedPointProofs.
 Open Scope string_scope.
 
 (** canon (parse j) = pcf j, for every raw schema the parser accepts, any fuel, any
@@ -64,15 +64,22 @@ Theorem C13_fixed_point_json : forall j, ns_closed j = true -> pcf_json (pcf_jso
 Proof. exact pcf_json_fixed_point. Qed.
 Print Assumptions C13_fixed_point_json.
 
-(** ... and on the text level: when the canonical JSON is accepted by the parser (hypothesis:
-    what is missing is the proof that the parser accepts the canonical JSON of every schema it
-    accepts), canonicalising it again gives the same text, which is its own printing. *)
-Theorem C13_fixed_point_partial : forall j f1 f2 t1 t2 p p' t1' t2',
-  ns_closed j = true -> simple_raw j = true -> simple_raw (pcf_json j) = true ->
-  parse_schema f1 j t1 = POk (p, t1') -> parse_schema f2 (pcf_json j) t2 = POk (p', t2') ->
-  canon p' = canon p /\ canon p' = print_json (pcf_json j).
-Proof. exact canon_fixed_point. Qed.
-Print Assumptions C13_fixed_point_partial.
+(** ... and on the text level, with no further hypothesis: the parser ACCEPTS the canonical JSON of
+    every schema it accepts (same names, same table keys), and canonicalising it again gives the
+    same text, which is the printing of the canonical JSON.  (Classes: [simple_raw], [ns_closed];
+    outside ns_closed the statement is false, see C13_fixed_point_refuted.) *)
+Theorem C13_fixed_point : forall f j t p t',
+  simple_raw j = true -> ns_closed j = true -> parse_schema f j t = POk (p, t') ->
+  exists p2 t2, parse_schema f (pcf_json j) t = POk (p2, t2) /\
+                canon p2 = canon p /\ canon p2 = print_json (pcf_json j) /\
+                (forall n, jhas n t2 = jhas n t').
+Proof. exact fixed_point. Qed.
+Print Assumptions C13_fixed_point.
+
+(** the canonical JSON stays in the class of C13_spec *)
+Theorem C13_canonical_json_simple : forall j, simple_raw j = true -> simple_raw (pcf_json j) = true.
+Proof. exact simple_raw_pcf. Qed.
+Print Assumptions C13_canonical_json_simple.
 
 (** the unconditional fixed-point statement is false: a null-namespace type nested in a
     namespaced record is re-read into the record's namespace *)
